@@ -43,11 +43,9 @@ class C02(Prop):
                    "image objects are not mutated between Images.add and dumps"]
     partial = {
         "C02_readback_partial": "hypotheses Uniq (identity collisions are written but refused on reload: F11, C02_F11_witness) and ProperInts "
-                                "(a bool in an int attribute comes back as 1/0: F19, C02_bool_int_witness); statement is about the document handed "
-                                "to json.dump (the JSON parser is an assumption). NOT proved in Lean: the byte-level fixpoint of the second dump "
-                                "(needs canonical order of a path-sorted cell with distinct paths + key-order invariance of canon); what is proved "
-                                "instead: C02_cycle_closed (the re-read manifest is writable again and every further document holds the same "
-                                "multiset of filings); the bytes are compared (model = real = second dump) on every generated case",
+                                "(a bool in an int attribute comes back as 1/0: F22, C02_bool_int_witness); both excluded regions are real "
+                                "defects with decide'd witnesses. C02_fixpoint / C02_bytes add DistinctPaths (the quantifier's own condition) and, "
+                                "for C02_bytes, json.load(printed text) = document as the explicit hypothesis hjson",
     }
 
     # ------------------------------------------------------------------ cases
@@ -225,6 +223,6 @@ PROP = C02()
 
 MANIFEST = dict(
     technique="Lean 4 proof over an executable model of images.py (serialize / deserialize / add mirrored statement by statement, validators and version gates regenerated from the source) + byte-exact differential check of dumps/loads against the real library + round-trip oracle on the real library",
-    text="Theorem C02_readback_partial: for every manifest (any number of variants, arches, images per cell, objects filed in several cells) whose compose section and images validate (generated rule lists), whose cells are keyed by admissible arches, whose integer attributes are ints and which satisfies identity uniqueness, serialize succeeds, deserialize of the written document succeeds, and the manifest read holds exactly the same multiset of (variant, arch, 15-attribute record) filings (C02_cells per cell, C02_all overall), compose section in normal form (C02_compose_norm_id: identity when a label is set or final is False), current version; C02_cycle_closed: the result satisfies the hypotheses again. C02_image_roundtrip / C02_compose_roundtrip are the field-level statements. Hypotheses are necessary: C02_F11_witness, C02_bool_int_witness (decide).",
-    note="JSON parser not modelled (document-level statement; parser exercised by every generated case). Byte-level fixpoint of the second dump is checked differentially, not proved. F11: a manifest with an identity collision built under a pre-1.1 header is written but refused on reload (known finding).",
+    text="Theorem C02_readback_partial: for every manifest (any number of variants, arches, images per cell, objects filed in several cells) whose compose section and images validate (generated rule lists), whose cells are keyed by admissible arches, whose integer attributes are ints and which satisfies identity uniqueness, serialize succeeds, deserialize of the written document succeeds, and the manifest read holds exactly the same multiset of (variant, arch, 15-attribute record) filings (C02_cells per cell, C02_all overall), compose section in normal form (C02_compose_norm_id: identity when a label is set or final is False), current version; C02_cycle_closed: the result satisfies the hypotheses again. C02_image_roundtrip / C02_compose_roundtrip are the field-level statements. C02_fixpoint: with distinct paths inside every cell the re-read manifest is written to a document with the same canonical form, hence the same bytes (the image table is a function of the multiset of filings: toPy_canon_perm); C02_bytes: dumps -> loads -> dumps returns the identical text, with json.load o print = id as explicit hypothesis. Hypotheses are necessary: C02_F11_witness, C02_bool_int_witness (decide).",
+    note="JSON parser not modelled (document-level statement; parser exercised by every generated case). F11: a manifest with an identity collision built under a pre-1.1 header is written but refused on reload (known finding).",
     ref="7/C02")
